@@ -25,13 +25,14 @@ main(int argc, char **argv)
         static const unsigned char vals[3] = { 0x01, 0x80, 0xFF };
         if (!out)
                 return 3;
-        vh_init((size_t) 1 << 30);
+        vh_init((size_t) 1 << 36);
         r = vh_region_new(N + 1024);
         for (f = 0; f < sizeof(fns) / sizeof(fns[0]); f++) {
                 if (!fns[f].f)
                         continue;
                 for (len = 0; len <= N; len++) {
-                        long placements = 0, zero_wrong = 0, positions = 0, detected = 0, faults = 0;
+                        long placements = 0, zero_wrong = 0, positions = 0, detected = 0, faults = 0, dense = 0, dense_detected = 0;
+                        int dense_bad = -1;
                         int firstbad_a = -1, firstbad_pos = -1;
                         int naligns = len < 200 ? 66 : 10;
                         for (a = 0; a < naligns; a++) {
@@ -50,6 +51,24 @@ main(int argc, char **argv)
                                         zero_wrong++;
                                         if (firstbad_a < 0) { firstbad_a = a; firstbad_pos = -1; }
                                 }
+                                /* dense contents: many non-zero bytes at once (whole region; only the last 16/32/64/128 bytes; 0x01 everywhere) */
+                                if (len > 0) {
+                                        static const int tails[6] = { 0, 128, 64, 32, 16, 0 };
+                                        int d;
+                                        for (d = 0; d < 6; d++) {
+                                                int t = tails[d] == 0 || tails[d] > len ? len : tails[d];
+                                                memset(p + len - t, d == 5 ? 0x01 : d == 3 ? 0x80 : 0xFF, t);
+                                                dense++;
+                                                VH_TRY { ret = fns[f].f(p, len); }
+                                                VH_CATCH { ret = 0; faults++; }
+                                                VH_DONE;
+                                                if (ret != 0)
+                                                        dense_detected++;
+                                                else if (dense_bad < 0)
+                                                        dense_bad = a * 8 + d;
+                                                memset(p, 0, len);
+                                        }
+                                }
                                 for (pos = 0; pos < len; pos++) {
                                         p[pos] = vals[(pos + a + len) % 3];
                                         positions++;
@@ -62,8 +81,41 @@ main(int argc, char **argv)
                                         p[pos] = 0;
                                 }
                         }
-                        fprintf(out, "{\"fn\":\"%s\",\"len\":%d,\"placements\":%ld,\"zero_wrong\":%ld,\"positions\":%ld,\"detected\":%ld,\"faults\":%ld,\"bad_a\":%d,\"bad_pos\":%d}\n",
-                                fns[f].name, len, placements, zero_wrong, positions, detected, faults, firstbad_a, firstbad_pos);
+                        fprintf(out, "{\"fn\":\"%s\",\"len\":%d,\"placements\":%ld,\"zero_wrong\":%ld,\"positions\":%ld,\"detected\":%ld,\"faults\":%ld,\"bad_a\":%d,\"bad_pos\":%d,\"dense\":%ld,\"dense_detected\":%ld,\"dense_bad\":%d}\n",
+                                fns[f].name, len, placements, zero_wrong, positions, detected, faults, firstbad_a, firstbad_pos, dense, dense_detected, dense_bad);
+                }
+        }
+        /* lengths beyond 32 bits: a sparse region of 4 GiB + 3000 bytes (never written except for single bytes, so it is backed by
+         * the kernel's zero page), its end flush against an inaccessible page */
+        if (argc > 3 && atoi(argv[3]) > 0) {
+                int ncases = atoi(argv[3]);
+                size_t L = ((size_t) 1 << 32) + 3000;
+                struct vh_region hr = vh_region_new(L + 8192);
+                unsigned char *p = vh_place(&hr, L, VH_END, 0);
+                for (f = 0; f < sizeof(fns) / sizeof(fns[0]); f++) {
+                        /* case 0: one non-zero byte just past 2^32; 1: the last byte; 2: all zero; 3: byte 2^31+5 */
+                        static const size_t off[4] = { ((size_t) 1 << 32) + 100, ((size_t) 1 << 32) + 2999, 0, ((size_t) 1 << 31) + 5 };
+                        long cases = 0, correct = 0, faults = 0;
+                        int c, bad = -1;
+                        if (!fns[f].f)
+                                continue;
+                        for (c = 0; c < ncases && c < 4; c++) {
+                                int ret = 0, want = c != 2;
+                                if (want)
+                                        p[off[c]] = 0x80;
+                                cases++;
+                                VH_TRY { ret = fns[f].f(p, L); }
+                                VH_CATCH { ret = -999; faults++; }
+                                VH_DONE;
+                                if ((ret != 0) == want && ret != -999)
+                                        correct++;
+                                else if (bad < 0)
+                                        bad = c;
+                                if (want)
+                                        p[off[c]] = 0;
+                        }
+                        fprintf(out, "{\"fn\":\"%s\",\"huge\":1,\"len_mib\":%d,\"cases\":%ld,\"correct\":%ld,\"faults\":%ld,\"bad_case\":%d}\n", fns[f].name,
+                                (int) (L >> 20), cases, correct, faults, bad);
                 }
         }
         fclose(out);
